@@ -134,7 +134,7 @@ Eval(e, h, c, cx) ==
     [] e.k = "none"  -> [ok |-> TRUE, v |-> Nil, class |-> ""]
     \* n("AbC"): the name resolves like any other - scopes, Execute variables, globals, then the built-ins -
     \* every time the expression is evaluated
-    [] e.k = "bcall" -> LET v == Resolve(h, c, e.a) IN
+    [] e.k \in {"bcall", "bpipe", "bcolon"} -> LET v == Resolve(h, c, e.a) IN       \* n("AbC"), "AbC" | n, n: "AbC"
                         IF v = Unset THEN [ok |-> FALSE, v |-> Nil, class |-> "identifier"]
                         ELSE IF v = "FUNC:lower" THEN [ok |-> TRUE, v |-> "abc", class |-> ""]
                         ELSE IF v = "FUNC:upper" THEN [ok |-> TRUE, v |-> "ABC", class |-> ""]
